@@ -117,5 +117,5 @@ func VH_C01_no_store() {
 	}
 	vDebugErr("validate", err)
 	vReach("rejected", err != nil)
-	vAssert("C01,C02.without-a-certificate-store-nothing-is-accepted", err != nil)
+	vAssert("C01,C02,C04.without-a-certificate-store-nothing-is-accepted", err != nil)
 }
